@@ -418,7 +418,7 @@ func writePacketAdaptationField(w *astikit.BitsWriter, af *PacketAdaptationField
 
 	if af.IsOneByteStuffing {
 		b.Write(uint8(0))
-		return 1, nil
+		return 1, b.Err()
 	}
 
 	length := calcPacketAdaptationFieldLength(af)
